@@ -3,6 +3,7 @@ package main
 // Property-level orchestration: registry -> harness runs -> replay -> known findings -> evidence -> exit code.
 
 import (
+	"sync"
 	"encoding/json"
 	"fmt"
 	"math/rand"
@@ -189,11 +190,22 @@ func cmdCheck(args []string) int {
 	replayRoot := filepath.Join(verifDir, "replays", prop)
 	os.RemoveAll(replayRoot)
 	exit := 0
-	for _, spec := range specs {
-		fmt.Printf("[%s %s] harness %s/%s ...\n", prop, tier, spec.Pkg, spec.Func)
-		rep := runHarness(l, spec, workers, false, dumpDir)
+	// all harnesses run concurrently; the global semaphore bounds the number of solver processes
+	reps := make([]*HarnessReport, len(specs))
+	var hwg sync.WaitGroup
+	for i, spec := range specs {
+		hwg.Add(1)
+		go func(i int, spec HarnessSpec) {
+			defer hwg.Done()
+			reps[i] = runHarness(l, spec, workers, false, dumpDir)
+			fmt.Printf("[%s %s] harness %s/%s %v: cases=%d paths=%d outcomes=%v verdict-queries=%d wall=%.1fs\n", prop, tier, spec.Pkg, spec.Func, spec.Params,
+				reps[i].Cases, reps[i].Paths, reps[i].Outcomes, reps[i].VerdictQ, reps[i].WallS)
+		}(i, spec)
+	}
+	hwg.Wait()
+	for i, spec := range specs {
+		rep := reps[i]
 		reports = append(reports, rep)
-		fmt.Printf("    cases=%d paths=%d outcomes=%v verdict-queries=%d wall=%.1fs\n", rep.Cases, rep.Paths, rep.Outcomes, rep.VerdictQ, rep.WallS)
 		for _, u := range rep.Undecided {
 			fmt.Printf("    UNDECIDED: %s\n", u)
 			problems = append(problems, spec.Func+": undecided: "+u)
@@ -346,8 +358,8 @@ func crossCheck(dir, tier string, seed int64) *CrossResult {
 			sem <- true
 			defer func() { <-sem }()
 			b, _ := os.ReadFile(f)
-			a, _ := OneShot("z3", string(b), 60)
-			b2, _ := OneShot("z3-new", string(b), 60)
+			a, _ := OneShot("z3-new", string(b), 60)
+			b2, _ := OneShot("z3", string(b), 60)
 			c2, _ := OneShot("cvc5", string(b), 60)
 			ch <- out{f, a, b2, c2}
 		}(f)
@@ -356,7 +368,7 @@ func crossCheck(dir, tier string, seed int64) *CrossResult {
 		o := <-ch
 		res.Checked++
 		dis := false
-		for name, r := range map[string]SatResult{"z3-new": o.b, "cvc5": o.c} {
+		for name, r := range map[string]SatResult{"z3-4.8.12": o.b, "cvc5": o.c} {
 			if r == Unknown || o.a == Unknown {
 				res.Unknown++
 				continue
@@ -364,7 +376,7 @@ func crossCheck(dir, tier string, seed int64) *CrossResult {
 			res.BySolver[name]++
 			if r != o.a {
 				dis = true
-				res.Disagreed = append(res.Disagreed, fmt.Sprintf("%s: z3=%s %s=%s", filepath.Base(o.f), o.a, name, r))
+				res.Disagreed = append(res.Disagreed, fmt.Sprintf("%s: z3-5.1.0=%s %s=%s", filepath.Base(o.f), o.a, name, r))
 			}
 		}
 		if dis {
@@ -411,7 +423,7 @@ func writeEvidence(path, prop, tier string, seed int64, ps *PropSpec, reports []
 		samples = append(samples, "no completed path")
 	}
 	cov["explanation"] = ps.Explanation
-	cov["technique"] = "bounded symbolic execution of the real Go SSA (go/ssa) with SMT verdicts (z3 4.8.12; cross-checked with z3 5.1.0 and cvc5 1.0); counterexamples replayed natively with go test -overlay"
+	cov["technique"] = "bounded symbolic execution of the real Go SSA (go/ssa) with SMT verdicts (z3 5.1.0 as z3-new; verdict queries re-decided one-shot by z3 4.8.12 and cvc5 1.0); counterexamples replayed natively with go test -overlay"
 	cov["bounds"] = ps.Bounds
 	cov["evaluations"] = paths
 	cov["distinct_nontrivial"] = len(distinct)
